@@ -10,7 +10,7 @@ import numpy.linalg as la
 def newton(
     RJ,
     x0,
-    rel_tol=1.0 - 6,
+    rel_tol=1.0e-6,
     abs_tol=1.0e-8,
     miters=20,
     linear_solver=la.solve,
